@@ -203,3 +203,57 @@ class EvalTracer:
 
     def roots(self):
         return getattr(self.tls, 'roots', [])
+
+
+# ---------------------------------------------------------------------------
+
+class ModeWatch:
+    """sys.monitoring PY_START on the mode functions: which interpreter function handled which
+    plain container.  Log entries: (mode name, id(spec), spec)."""
+    NAMES = {'AUTO': 'auto', 'FILL': 'fill', '_glom_match': 'match', 'GROUP': 'group', 'mode': 'arg'}
+
+    def __init__(self):
+        import sys
+        self.log = []
+        self.ok = False
+        mon = getattr(sys, 'monitoring', None)
+        if mon is None:
+            return
+        import glom.matching as gm
+        import glom.grouping as gg
+        self.mon = mon
+        self.codes = {
+            gcore.AUTO.__code__: 'auto', gcore.FILL.__code__: 'fill', gm._glom_match.__code__: 'match',
+            gg.GROUP.__code__: 'group', gcore._ArgValuator.mode.__code__: 'arg',
+        }
+        self.tool = None
+        for tid in (mon.DEBUGGER_ID, mon.COVERAGE_ID, 4, 3):
+            try:
+                mon.use_tool_id(tid, 'rv-modewatch')
+                self.tool = tid
+                break
+            except ValueError:
+                continue
+        if self.tool is None:
+            return
+        mon.register_callback(self.tool, mon.events.PY_START, self._cb)
+        for code in self.codes:
+            mon.set_local_events(self.tool, code, mon.events.PY_START)
+        self.ok = True
+
+    def _cb(self, code, offset):
+        import sys
+        name = self.codes.get(code)
+        if name is None:
+            return
+        frame = sys._getframe(1)
+        spec = frame.f_locals.get('spec', None)
+        self.log.append((name, id(spec), spec))
+
+    def close(self):
+        if self.ok:
+            for code in self.codes:
+                self.mon.set_local_events(self.tool, code, 0)
+            self.mon.register_callback(self.tool, self.mon.events.PY_START, None)
+            self.mon.free_tool_id(self.tool)
+            self.ok = False
